@@ -3,9 +3,10 @@ from fractions import Fraction
 
 from ..poly import Sym
 from .. import poly
-from ..interp import (Interp, Hooks, Opaque, Str, Tup, Const, Cmp, NotC, Truthy, IsNone, FuncRef,
+from ..interp import (Interp, Hooks, Opaque, Str, Tup, Const, Cmp, NotC, Truthy, IsNone, FuncRef, In,
                       ExtRef, NONE, Sym as _Sym)
 from ..model import AnalysisError
+from ..loops import UnrollMixin
 from .. import purity
 
 F = Fraction
@@ -141,7 +142,12 @@ def _same(a, b):
     return a == b and type(a) is type(b)
 
 
-class ParserHooks(Hooks):
+class ParserHooks(UnrollMixin, Hooks):
+    unroll = True            # a loop over the (literal) suffix table is unrolled exactly
+
+    def loop(self, interp, node, st):
+        return self.unroll_loop(interp, node, st)
+
     def may_raise(self, target, args, st, node):
         if isinstance(target, ExtRef) and target.dotted == 'builtins.float' and args \
                 and not isinstance(args[0], _Sym):
@@ -171,6 +177,27 @@ def parser_table(ck, prog):
         for c, t in o.state.path:
             while isinstance(c, NotC):
                 c, t = c.c, not t
+            if isinstance(c, In) and isinstance(c.container, Tup) and c.container.items and all(
+                    isinstance(x, Str) and x.is_lit() for x in c.container.items) and \
+                    isinstance(c.item, Opaque) and c.item.label == 'slice':
+                # s[-k:] in ('Q', 'q'): one suffix test for the whole group
+                base, lo, hi, step = c.item.args
+                lits = tuple(x.text() for x in c.container.items)
+                if base == stripped and hi == NONE and step == NONE and isinstance(lo, _Sym) and \
+                        lo.is_const() and lo.const_value() < 0:
+                    tests.append((lits, int(-lo.const_value()), t))
+                    continue
+            if isinstance(c, Cmp) and c.op in ('==', '!='):
+                # s.removesuffix(lit) != s  <=>  s ends with lit (lit non-empty)
+                rs = None
+                for x_, y_ in ((c.a, c.b), (c.b, c.a)):
+                    if isinstance(x_, Opaque) and x_.label == 'm:removesuffix' and \
+                            len(x_.args) == 2 and x_.args[0] == y_ == stripped and \
+                            isinstance(x_.args[1], Str) and x_.args[1].is_lit() and x_.args[1].text():
+                        rs = x_.args[1].text()
+                if rs is not None:
+                    tests.append((rs, len(rs), t if c.op == '!=' else not t))
+                    continue
             if not (isinstance(c, Cmp) and c.op in ('==', '!=')):
                 # a guard that is not a suffix test (e.g. a fast path): the path is still judged
                 # by what it returns / raises
@@ -200,9 +227,10 @@ def parser_table(ck, prog):
                   fn.loc())
             continue
         if len(tests) > len(order):
-            order = [x[0] for x in tests]
+            order = [l for x in tests for l in (x[0] if isinstance(x[0], tuple) else (x[0],))]
+        first = lambda l: l[0] if isinstance(l, tuple) else l
         matched = [x for x in tests if x[2]]
-        if any(not (a[0].endswith(b[0]) or b[0].endswith(a[0]))
+        if any(not (first(a[0]).endswith(first(b[0])) or first(b[0]).endswith(first(a[0])))
                for i, a in enumerate(matched) for b in matched[i + 1:]):
             # two different suffixes cannot both end the same string: an infeasible path (tests
             # evaluated after the first match, e.g. by a comprehension over the suffix table)
@@ -230,11 +258,18 @@ def parser_table(ck, prog):
                     and rest.args[1] == NONE and isinstance(rest.args[2], _Sym) \
                     and rest.args[2].is_const() and rest.args[3] == NONE:
                 w_strip = int(-rest.args[2].const_value())
+            elif isinstance(rest, Opaque) and rest.label == 'm:removesuffix' and \
+                    len(rest.args) == 2 and rest.args[0] == stripped and \
+                    isinstance(rest.args[1], Str) and rest.args[1].is_lit():
+                # on this path the suffix test held: the suffix is really removed
+                w_strip = len(rest.args[1].text()) if any(
+                    first(x[0]) == rest.args[1].text() and x[2] for x in tests) else 0
             elif rest == stripped:
                 w_strip = 0
             else:
                 raise AnalysisError('parser: numeric part is not s[:-k]: %r' % (rest,))
-            rows.append((lit, w_test, w_strip, unit.text()))
+            for one in (lit if isinstance(lit, tuple) else (lit,)):
+                rows.append((one, w_test, w_strip, unit.text()))
         else:
             rows.append((None, 0, 0 if rest == stripped else -1, unit.text()))
     canon = {'q': 'Q'}
